@@ -460,9 +460,15 @@ def closed_forms(H, P, Q):
 def replay_metric(run, n, B, rng):
     H = hyp()
     c = core.cfg(constants=dict(N=n, B=B, Triples=False, SquareOnly=False),
-                 invariants=["ReversedCauchySchwarz", "Symmetric", "TimeOrientation", "ModelsAgree", "KleinAgrees", "EmitPair"])
+                 invariants=["ReversedCauchySchwarz", "Symmetric", "TimeOrientation", "ModelsAgree", "KleinAgrees", "ScaleInvariant", "EmitPair"])
     r = run.tlc("hyp/HypMetric.tla", c, name="HypMetric_pairs_n%d" % n, workers=min(8, core.NCPU), emit_prefix="PAIR ")
     es = r.emits
+    reps = None
+    for line in r.stdout.splitlines():
+        if line.startswith('"REPS '):
+            reps = json.loads(json.loads(line)[5:])
+    if reps is None:
+        raise core.MachineryFailure("no REPS table printed by HypMetric.tla")
     X = np.array([e["x"] for e in es], dtype=float)
     Y = np.array([e["y"] for e in es], dtype=float)
     want = np.sqrt(np.array([e["coshsq"][0] / e["coshsq"][1] for e in es]))
@@ -495,6 +501,27 @@ def replay_metric(run, n, B, rng):
     report(fin & same & (d > 1e-7), "distance.zero_for_equal_points")
     report(fin & (np.abs(np.cosh(d) - want) > 1e-9 * want), "distance.value")
     report(fin & np.isfinite(d_rev) & (np.abs(d - d_rev) > 1e-9 * (1 + d)), "distance.symmetric")
+    # the same pairs through other representatives of the two projective classes (spec: RepScales / RepPatterns); the
+    # caller's arrays are handed over as they are and must not be written
+    for (i1, i2) in sorted(map(tuple, reps["patterns"])):
+        s1, s2 = reps["scales"][i1 - 1], reps["scales"][i2 - 1]
+        XS, YS = X * (s1[0] / s1[1]), Y * (s2[0] / s2[1])
+        xs, ys = XS.copy(), YS.copy()
+        try:
+            with np.errstate(all="ignore"):
+                ds = np.asarray(H.Point(xs).distance(H.Point(ys)))
+        except Exception as ex:
+            run.violation(key + ":rep:%s,%s:raise" % (s1, s2), "raised:distance", dict(n=n, scales=[s1, s2], error="%s: %s" % (type(ex).__name__, ex)))
+            continue
+        run.evaluations += len(es)
+        f2 = np.isfinite(ds)
+        extra = lambda i, ds=ds, s1=s1, s2=s2: dict(scales=[s1, s2], lib_distance_rescaled=repr(float(ds[i])))
+        report(~f2, "distance.representative.finite_not_nan", extra)
+        report(f2 & same & (ds > 1e-7), "distance.representative.zero_for_equal_points", extra)
+        report(f2 & (np.abs(np.cosh(ds) - want) > 1e-9 * want), "distance.representative.value", extra)
+        if not (np.array_equal(xs, XS) and np.array_equal(ys, YS)):
+            run.violation(key + ":rep:%s,%s:input" % (s1, s2), "build.caller_array_unchanged", dict(n=n, scales=[s1, s2]))
+    run.actions["distance (representatives)"] = run.actions.get("distance (representatives)", 0) + len(es) * len(reps["patterns"])
     # closed forms on the library's own coordinates
     try:
         with np.errstate(all="ignore"):
@@ -544,16 +571,22 @@ def run(run, replay=None):
     quick = run.tier == "quick"
     rng = random.Random(run.seed)
     run.rule = ("conversion cases: one per emitted LTS transition (point x ordered pair of models), replayed as composite arrays "
-                "of 3 shapes and as unit objects; metric cases: one per emitted ordered pair of points; distinct_nontrivial "
-                "= conversion transitions + pairs of distinct points")
+                "of 3 shapes and as unit objects, each built twice from one caller-owned array; query histories: one per emitted "
+                "(point, model built from, query sequence), executed on one live object as arrays and unit objects; metric cases: "
+                "one per emitted ordered pair of points, through 7 representative patterns, and one per (pair of the DPAIRS table, "
+                "ordered pair of models); distinct_nontrivial = conversion transitions + histories + pairs of distinct points")
     run.assumptions += [
         "points: primitive integer vectors with bounded entries; conversions on the sub-universe where -<x,x> is a perfect square or 0",
         "half-space point at infinity and hyperboloid coordinates of ideal points are outside the domain",
         "tolerance 1e-9 relative (1e-8 after chains of 4 conversions); sheet of hyperboloid coordinates not observed",
+        "far points (Klein radius up to 1 - 1.3e-9, Poincare radius 0.99995): tolerance scaled by the exact conditioning cosh^2 d(x, origin) "
+        "when the point is supplied in ball / half-space coordinates; 'zero distance' is d <= max(1e-7, sqrt(32 eps cond))",
+        "query histories of length 2 (3 in the thorough tier) over {coords(m), distance to origin, distance to a rebuilt copy, origin_to}",
+        "projective representatives: factors 1, -1, 3, -1/2, 7/10, 1/20000",
     ]
     conv = {1: 13, 2: 9, 3: 5, 4: 3} if quick else {1: 25, 2: 13, 3: 7, 4: 5, 5: 3}
     bpair = {1: 13, 2: 9, 3: 5, 4: 3} if quick else {1: 25, 2: 13, 3: 5, 4: 3, 5: 2}
-    hist = {1: (13, 2), 2: (5, 2), 3: (3, 2), 4: (2, 2)} if quick else {1: (25, 3), 2: (7, 3), 3: (4, 3), 4: (3, 2), 5: (2, 2)}
+    hist = {1: (13, 2), 2: (5, 2), 3: (2, 2), 4: (2, 2)} if quick else {1: (25, 3), 2: (5, 3), 3: (3, 3), 4: (3, 2), 5: (2, 2)}
     for n, B in conv.items():
         emits, dpairs, hs = conversion_lts(run, n, B, bpair[n], hist[n][0], hist[n][1])
         coords_of = replay_conversions(run, n, emits, rng)
